@@ -17,6 +17,10 @@ real descriptors).  The monitor states the property on the decoded bus traffic w
                                 in order, nothing else does
   c57-tx-order                  bytes accepted by `tx` reach the host in order, exactly once (host discards
                                 retransmissions by data toggle)
+CLEAR_FEATURE(ENDPOINT_HALT) naming endpoint 4 is part of the host script (also with a tx packet in flight); the rx / tx
+monitors follow it as the theorems rx_in_order / tx_in_order state it: both sides restart with DATA0 when the ACK of the
+status stage arrives, buffered data stay, and a tx packet the host had accepted whose ACK the device did not see must
+come exactly once more (it is not counted as new data).
 "matrix" cases sweep request type x recipient x bRequest x direction x data stage systematically (`request_matrix`),
 before and after enumeration and between bulk transfers.
 "overflow" cases keep the rx consumer stalled while the host fills the receive FIFO and keeps writing (the packets that
@@ -54,7 +58,9 @@ RULE = ("cases = (a) 'matrix' sessions: ONE request matrix per run, cut into 4 (
         "knows or a neighbour), standard requests, OUT transfers to endpoint 4 "
         "(retransmissions after 'lost' ACKs, corrupted packets, PING, rx consumer draining at random), IN transfers from "
         "endpoint 4 (tx producer chunks of 1..2*mps+3 bytes with and without `last`, lost / corrupted host ACKs, "
-        "other devices' transactions in between), polls of the never-fed endpoint 3, SOF, malformed packets; "
+        "other devices' transactions in between), CLEAR_FEATURE(ENDPOINT_HALT) for endpoint 3 / OUT 4 / IN 4 (a third of "
+        "them right after a tx packet whose ACK the host loses or corrupts), polls of the never-fed endpoint 3, SOF, "
+        "malformed packets; "
         "'overflow' cases keep the rx consumer stalled while the host fills the FIFO and keeps writing")
 ASSUMPTIONS = dev_ctl.ASSUMPTIONS + [
     "stream events happen between transactions; tx `first` is not used by the endpoint",
@@ -333,9 +339,19 @@ class SerialHost(X.FullHost):
         if rng.chance(85):
             yield from self.enumerate()
         for _ in range(n_steps):
-            k = rng.weighted([(12, "class"), (8, "ctrl"), (30, "tx"), (30, "rx"), (4, "idle-ep"), (6, "between")])
+            k = rng.weighted([(12, "class"), (8, "ctrl"), (30, "tx"), (30, "rx"), (4, "idle-ep"), (6, "between"), (6, "halt")])
             if k == "class":
                 yield from self.class_request()
+            elif k == "halt":
+                # CLEAR_FEATURE(ENDPOINT_HALT) for endpoint 3 / OUT 4 / IN 4, also with a tx packet in flight (a third of
+                # the time right after an IN transaction whose ACK the host "loses")
+                if rng.chance(33):
+                    self.tag("clear-halt:tx-in-flight")
+                    yield ["produce", 4, rng.bytes(rng.choice([1, 3, 64])), 1]
+                    r = yield ["tok", I, self.addr, 4]
+                    if r.resp.is_data:
+                        yield rng.choice([["raw", [0xD2 ^ (1 << rng.below(8))]], ["quiet"]])
+                yield from self.clear_halt()
             elif k == "ctrl":
                 yield from self.control_transfer()
             elif k == "tx":
@@ -387,6 +403,13 @@ def monitor(log, spec, overflow=False):
     tx_host = []             # bytes the host has accepted
     in_toggle = 0
     last_in4 = None          # index of the last IN ep4 token answered with data
+    # CLEAR_FEATURE(ENDPOINT_HALT) for endpoint 4 (as coded: it takes effect when the host's ACK of the status stage
+    # arrives; both sides restart with DATA0, buffered data stay).  IN 4: a packet the host has accepted while the
+    # device has not seen its ACK (`tx_unconf`) comes again as DATA0 and is accepted a second time (`tx_redo`: the
+    # next packet accepted must be `tx_last` again and is not new data) - theorem tx_in_order, ghost `redone`.
+    tx_unconf = False
+    tx_redo = False
+    tx_last = None
     for k, r in enumerate(log):
         ev, resp = r.event, r.resp
         kind = ev[0]
@@ -457,6 +480,8 @@ def monitor(log, spec, overflow=False):
                             cur["kind"] = "set_address"
                         elif typ == 0 and req == 9:
                             cur["kind"] = "set_configuration"
+                        elif typ == 0 and req == 1:
+                            cur["kind"] = "clear_feature"
                         elif (typ, req) in ACCEPTED:
                             cur["kind"] = "slc"
                         elif typ != 0:
@@ -489,6 +514,16 @@ def monitor(log, spec, overflow=False):
                 if c["kind"] == "set_configuration" and c["zlp"]:
                     if r.configuration != (c["value"] & 0xFF):
                         fail(k, "c57-enumeration", "SET_CONFIGURATION %d completed but the configuration is %d" % (c["value"] & 0xFF, r.configuration))
+                if c["kind"] == "clear_feature" and log[k - 1].resp.is_data and not c.get("cleared"):
+                    # the ACK of the status-stage ZLP: the halt-clear is strobed for the endpoint wIndex names
+                    c["cleared"] = True
+                    idx = c["su"][4]
+                    if idx & 0x0F == 4 and not idx & 0x80:
+                        out_toggle = 0
+                    if idx & 0x0F == 4 and idx & 0x80:
+                        in_toggle = 0
+                        tx_redo = tx_redo or tx_unconf
+                        tx_unconf = False
         elif kind == "reset":
             if cur:
                 cur["clean"] = False
@@ -514,8 +549,18 @@ def monitor(log, spec, overflow=False):
                 p = log[last_in4].resp
                 t = 1 if p.pid == D1 else 0
                 if t == in_toggle:
-                    tx_host += list(p.payload)
                     in_toggle ^= 1
+                    if tx_redo:
+                        tx_redo = False
+                        if list(p.payload) != tx_last:
+                            fail(k, "c57-tx-order", "after the halt-clear the host did not get the unconfirmed packet %r again but %r"
+                                 % (tx_last, list(p.payload)))
+                    else:
+                        tx_host += list(p.payload)
+                    tx_last = list(p.payload)
+                    tx_unconf = True
+                if kind == "hs":
+                    tx_unconf = False          # the device has seen the ACK
                 if tx_host != tx_given[:len(tx_host)]:
                     fail(k, "c57-tx-order", "the host has received %d bytes that are not the prefix of the %d bytes given to tx"
                          % (len(tx_host), len(tx_given)))
